@@ -45,6 +45,22 @@ def make_card(spec):
     return card, out
 
 
+_MODEL_FILE = None
+
+
+def model_file():
+    """a skops file holding a user object (values.Plain: not trusted by default), written once per process"""
+    global _MODEL_FILE
+    if _MODEL_FILE is None:
+        import tempfile
+        import skops.io as sio
+        from values import build
+        d = tempfile.mkdtemp(prefix="c20model_")
+        _MODEL_FILE = os.path.join(d, "model.skops")
+        sio.dump(build(["userobj", "Plain", [["a", ["int", 1]], ["w", ["ndarray", "<f8", [3], "C", 1, False]]]]), _MODEL_FILE)
+    return _MODEL_FILE
+
+
 def run_op(op):
     import skops.io as sio
     from absval import fingerprint
@@ -90,6 +106,16 @@ def run_op(op):
         if kind == "card":
             card, outs = make_card(op[1])
             return ["card", outs, card.render(), card.get_toc()]
+        if kind == "card_file":
+            # a card over a model FILE holding a type that is not trusted by default: what get_model() gives depends on the
+            # `trusted` argument of THIS card only, never on which cards were made of the same file before
+            from skops.card import Card
+            path = model_file()
+            card = Card(path, template=None, model_diagram=False, trusted=op[1])
+            m = card.get_model()
+            if len(op) > 2 and op[2] == "mutate":
+                m.a = "changed-by-one-card"
+            return ["card_file", h(fingerprint(m))]
     except Exception as e:
         return [kind, "exc:" + (exc_enum(e) if kind in ("gut", "vis", "loads") else type(e).__name__)]
     raise ValueError(kind)
